@@ -272,8 +272,8 @@ def run(ctx):
         bywin = {}
         for c in w2:
             bywin.setdefault((c["f"], c["g"]), []).append(c)
-        w2 = [c for v in bywin.values() for c in v[:14]]
-        w1 = w1[:500]
+        w2 = [c for v in bywin.values() for c in v[:8]]
+        w1 = w1[:300]
     for c in w2:
         c["dense"] = rnd.random() < 0.25
     ctx.log("W2 scenes: %d, W1 triangles: %d" % (len(w2), len(w1)))
@@ -281,12 +281,22 @@ def run(ctx):
     # ---- direction B: seeded float families
     fam = []
     for name, cnt in (("cap", 16), ("cell", 40), ("cellunion", 16), ("rect", 30), ("loop", 10), ("polyline", 60), ("hull", 60)):
-        for k in range(1 if q else 6):
-            fam.append({"op": "c10.rand", "family": name, "seed": ctx.seed * 100 + k, "count": cnt if q else cnt * 2})
+        for k in range(1 if q else 5):
+            fam.append({"op": "c10.rand", "family": name, "seed": ctx.seed * 100 + k, "count": cnt})
 
     batch = cases + w2 + w1 + fam
-    per = len(batch) if q else 2500
-    for i in range(0, len(batch), per):
-        cands += tr.run(batch[i:i + per], "c10")
+    # trace files of at most ~120k events each (TLC validates 5-8k events/s and keeps the whole file in memory)
+    est = {"c10.hull": 0, "c10.w2": 1400, "c10.w1": 360, "cap": 1150, "cell": 215, "cellunion": 450, "rect": 160, "loop": 700,
+           "polyline": 25, "hull": 3}
+    group, size = [], 0
+    for c in batch:
+        e = est[c["op"]] if c["op"] != "c10.rand" else est[c["family"]] * c["count"]
+        if group and size + e > 120000:
+            cands += tr.run(group, "c10")
+            group, size = [], 0
+        group.append(c)
+        size += e
+    if group:
+        cands += tr.run(group, "c10")
     ctx.counters["trace_events_validated_by_tlc"] = tr.events
     settle(ctx, tr, cands)
